@@ -744,3 +744,20 @@ def m_size_of(c):
     if not m or m.group(1) not in sizes:
         raise Unsupported('size_of of ' + (m.group(1) if m else '?'))
     return Int(z3.BitVecVal(sizes[m.group(1)], 64), False)
+
+
+@pattern(r'^<\((?:[ui](?:8|16|32|64|128|size)(?:, )?)+\) as PartialOrd>::(gt|lt|ge|le)$')
+def m_int_tuple_cmp(c):
+    """lexicographic comparison of tuples of integers (derived PartialOrd of tuples)"""
+    a, b = deref(c.st, c.args[0]), deref(c.st, c.args[1])
+    n = len([k for k in a.fields if isinstance(k, int)])
+    op = c.canon.rsplit('::', 1)[1]
+    lt = z3.BoolVal(False)
+    eq = z3.BoolVal(True)
+    for i in range(n):
+        x, y = a.fields[i], b.fields[i]
+        less = (x.v < y.v) if x.signed else z3.ULT(x.v, y.v)
+        lt = z3.Or(lt, z3.And(eq, less))
+        eq = z3.And(eq, x.v == y.v)
+    gt = z3.And(z3.Not(lt), z3.Not(eq))
+    return z3.simplify({'lt': lt, 'le': z3.Or(lt, eq), 'gt': gt, 'ge': z3.Or(gt, eq)}[op])
